@@ -216,7 +216,7 @@ var c07LongKey = "long-" + strings.Repeat("0123456789abcdef", 20)
 
 func TestC07(t *testing.T) {
 	c := evid.New("C07")
-	c.Rule = "histories in which 2-4 identical requests of every write kind share an idempotency key (pool of 2 keys): sequential, racing (choice lists over run.ik.taken, store lookup, execution, run.wait) and retried after a crash placed anywhere; side class: same key on different requests; callers that go away at the moment their entry is handed to the batcher; a failing batch insert (the process dies, the retry comes after the restart); one request held back while the others run. One case in 16 is parallel: 10-40 rounds of 2-8 real goroutines released together with the same keyed request against one real Commander. Oracle: <=1 entry per key; every success returns that entry's outcome. Non-trivial = >=2 same-key requests overlapping or straddling a restart; distinct by operations + gate trace."
+	c.Rule = "histories in which 2-4 identical requests of every write kind share an idempotency key (pool of 2 keys): sequential, racing (choice lists over run.ik.taken, store lookup, execution, run.wait) and retried after a crash placed anywhere; side class: same key on different requests; callers that go away at the moment their entry is handed to the batcher; a failing batch insert (the process dies, the retry comes after the restart); one request held back while the others run. One case in 16 is parallel: 10-40 rounds of 2-8 real goroutines released together with the same keyed request against one real Commander. One case in 16 runs two ledgers of one bucket with keys used on both (the key lookup through the real SQL store): a key is a ledger's own. Oracle: <=1 entry per key; every success returns that entry's outcome. Non-trivial = >=2 same-key requests overlapping or straddling a restart; distinct by operations + gate trace."
 	c.Assumptions = []string{engineAssumption}
 	cfg := enginesim.DefaultConfig()
 	cfg.IKPool = []string{"", "k1", "k1", "k2", "k2", c07LongKey} // one key longer than any column or buffer is likely to be
@@ -231,6 +231,10 @@ func TestC07(t *testing.T) {
 	runProp(t, c, func(rt *rapid.T) {
 		if rapid.IntRange(0, 15).Draw(rt, "parallelFamily") == 0 {
 			parallelClaims(rt, c, "C07", parKey)
+			return
+		}
+		if rapid.IntRange(0, 15).Draw(rt, "sharedBucket") == 0 {
+			sharedBucket(rt, c, "C07")
 			return
 		}
 		plan := enginesim.GenPlan(rt, cfg)
@@ -416,7 +420,7 @@ func TestC11(t *testing.T) {
 
 func TestC16(t *testing.T) {
 	c := evid.New("C16")
-	c.Rule = "crash-free histories of all write kinds, real and preview (25%), with idempotency keys incl. replays of a persisted key (in a quarter of the histories a key also comes back on a different request), alone and concurrent, with failing store reads aimed at the k-th read of one request; the Commander publishes through the real bus.ledgerMonitor into a recording publisher (each publication is a scheduling gate). Oracle: every published message matches, field by field, an entry persisted at the moment of publication; every entry whose producing request lived to answer -- success or error -- is published at least once (producers and publications are matched to entries one to one, by augmenting paths); previews and failures publish nothing. Non-trivial = history containing a revert entry, a preview, or a keyed replay; distinct by operations + gate trace."
+	c.Rule = "crash-free histories of all write kinds, real and preview (25%), with idempotency keys incl. replays of a persisted key (in a quarter of the histories a key also comes back on a different request), alone and concurrent, with failing store reads aimed at the k-th read of one request; the Commander publishes through the real bus.ledgerMonitor into a recording publisher (each publication is a scheduling gate). One case in 16 runs two ledgers of one bucket with idempotency keys used on both: every event names its ledger and describes an entry of that ledger's log. Oracle: every published message matches, field by field, an entry persisted at the moment of publication; every entry whose producing request lived to answer -- success or error -- is published at least once (producers and publications are matched to entries one to one, by augmenting paths); previews and failures publish nothing. Non-trivial = history containing a revert entry, a preview, or a keyed replay; distinct by operations + gate trace."
 	c.Assumptions = []string{engineAssumption}
 	cfg := enginesim.DefaultConfig()
 	cfg.DryRunPct = 25
@@ -431,6 +435,10 @@ func TestC16(t *testing.T) {
 	cfg.RefBurstPct = 25
 	cfg.RefPool = nil // bursts of writes that all commit: several logs queued behind the one being persisted
 	runProp(t, c, func(rt *rapid.T) {
+		if rapid.IntRange(0, 15).Draw(rt, "sharedBucket") == 0 {
+			sharedBucket(rt, c, "C16")
+			return
+		}
 		plan := enginesim.GenPlan(rt, cfg)
 		// the property speaks about replays: the same request sent again with its key; now and then a key comes back
 		// on a different request of any kind (a client's mistake): whatever is published then must still describe
